@@ -29,6 +29,8 @@ func rulesC01(c *Ctx) {
 	ruleOpResultID(c)
 	ruleFatalEndsSession(c)
 	ruleTableKeyIdentity(c)
+	ruleFlushTotal(c)      // a flush acknowledged OK leaves nothing installed in the flushed instances (shared with C08)
+	ruleForwarderJoined(c) // installed ⇒ acknowledged: a result produced for the stream is written before the RPC ends (shared with C06)
 }
 
 // R1.2
